@@ -248,3 +248,8 @@ var CSSUnitFactor = map[string]map[string]float64{
 	"resolution": {"dppx": 1, "dpi": 1.0 / 96, "dpcm": 2.54 / 96},
 	"length":     {"px": 1, "in": 96, "cm": 96 / 2.54, "mm": 96 / 25.4, "q": 96 / 101.6, "pt": 96.0 / 72, "pc": 16},
 }
+
+// HTML: the attributes whose missing-value default makes `attr=default` equal to leaving the attribute out: type (script, style,
+// link, input, button), method and enctype (form), colspan / rowspan (td, th), span (col, colgroup), shape (area), media (style,
+// link). formmethod / formenctype (§4.10.18.6) have no default: absent, the form owner's method / enctype applies.
+var HTMLAttrsWithDefault = set(`type method enctype colspan rowspan span shape media`)
